@@ -602,6 +602,8 @@ def judge(ctx, case, impl, plan, run, which):
 
 
 def shrink(case):
+    if case.get("kind") != "cli":
+        return
     o = case["opts"]
     for k in list(o):
         if k in ("pose_relation", "delta", "delta_unit"):
